@@ -33,8 +33,9 @@ PROPS = {
         technique="Lean 4 proofs about an executable model (mutual structural induction over terms, list partition lemmas) + model/implementation/specification correspondence on generated fact tables",
         lean_module="PrologVerif.Properties.C11",
         ns="PrologVerif.C11",
-        streams=[dict(name="c11.collect", quick=6000, thorough=60000)],
-        rule="one findall/bagof/setof call per case over a generated fact table (1-2 predicates, 0-10 facts; columns ground, partially bound, variant of each other, non-linear like t(1,C,C)); goals: fact calls, conjunctions, disjunctions, member/2, =/2, \\+, true/fail, goals raising errors (at once or after some solutions), nested findall/bagof/setof; templates sharing any subset of variables with the goal; 0-3 ^-prefixes over goal variables, other variables, compound or ground terms, also reached through call-time bindings; Instances unbound, partial, closed lists of variables or constants, non-lists, or sharing one variable with the call; generated from one PRNG (VERIF_SEED); non-trivial = bagof/setof with at least 2 groups or a group of at least 2 solutions whose witness contains free variables, findall with at least 2 solutions; distinct = distinct case text",
+        streams=[dict(name="c11.collect", quick=6000, thorough=60000),
+                 dict(name="c11.variant", quick=4000, thorough=40000)],
+        rule="one findall/bagof/setof call per case over a generated fact table (1-2 predicates, 0-10 facts; columns ground, partially bound, variant of each other, non-linear like t(1,C,C)); goals: fact calls, conjunctions, disjunctions, member/2, =/2, \\+, true/fail, goals raising errors (at once or after some solutions), nested findall/bagof/setof; templates sharing any subset of variables with the goal; 0-3 ^-prefixes over goal variables, other variables, compound or ground terms, also reached through call-time bindings; Instances unbound, partial, closed lists of variables or constants, non-lists, or sharing one variable with the call; generated from one PRNG (VERIF_SEED); c11.variant: variant/2 (hook VerifVariant) on pairs of random terms (bijective renamings, permutations of the own variables, non-injective renamings in both directions, constants for variables, unrelated terms) and renamedCopy (hook VerifRenamedCopy), non-trivial = first term has at least 2 variables; c11.collect: non-trivial = bagof/setof with at least 2 groups or a group of at least 2 solutions whose witness contains free variables, findall with at least 2 solutions; distinct = distinct case text",
         trusted=[
             "modelled (hand-written, correspondence-checked): engine/builtin.go FindAll, BagOf, SetOf, collectionOf, variant, iteratedGoalTerm, renamedCopy; engine/variable.go newVariableSet, newExistentialVariablesSet, newFreeVariablesSet; engine/compound.go Env.set, tuple; engine/env.go Resolve, unify (no occurs check) as used by collectionOf; the ListIterator check of Instances; the Compare methods on integers, atoms, variables, compounds",
             "input of the model, taken from the real interpreter on every case: the solution sequence of the (iterated) goal and the error it raises, enumerated directly with engine.Call (not through findall)",
